@@ -380,3 +380,25 @@ def read_ndjson(path):
 
 def distinct_count(rows, key=lambda r: json.dumps(r, sort_keys=True)):
     return len({key(r) for r in rows})
+
+
+def replay_by_rerun(pid, check, payload, keys=("asn",)):
+    """Replay for checks whose cases are drawn by the seeded, single-worker simulation of the quick tier: the quick check is run
+    again (same VERIF_SEED, same inputs) and the event of the replay file is looked up among the violations of that run."""
+    import contextlib, io
+    want = payload.get("event") or {}
+    buf = io.StringIO()
+    with contextlib.redirect_stdout(buf):
+        rc = check("quick")
+    path = os.path.join(WORK, "run", pid, "violations.ndjson")
+    found = []
+    if os.path.exists(path):
+        for v in read_ndjson(path):
+            e = v.get("event") or {}
+            if v.get("what") == payload.get("what") and all(e.get(k) == want.get(k) for k in keys):
+                found.append(v)
+    print(f"re-ran bin/check {pid} --tier quick (exit {rc}); the event of the replay file "
+          + ("is reported again:" if found else "is not among its violations"))
+    for v in found[:1]:
+        print("  " + v["what"] + ": " + brief(v["event"]))
+    return 1 if found else 0
